@@ -116,7 +116,7 @@ int main(int argc, char** argv) {
     vh::silence_stdout();
     vh::Rng rng(a.seed);
 
-    // --mode all:<lo>..<hi>:<k>  |  exp:<lo>..<hi>:<k>  |  wild:<lo>..<hi>:<k>  |  fam:<name,name,...>:<k>[:<part>/<parts>]  (handler names of decoder.h)
+    // --mode all:<lo>..<hi>:<k>  |  exp:<lo>..<hi>:<k>  |  wild:<lo>..<hi>:<k>  |  fam:<name;name/Operands;...>:<k>[:<part>/<parts>]  (handler names of decoder.h)
     char kind[16] = "all";
     unsigned lo = 0, hi = 65535, k = 1;
     std::vector<unsigned> words;
@@ -128,7 +128,9 @@ int main(int argc, char** argv) {
         std::sscanf(rest.substr(rest.find(':') + 1).c_str(), "%u:%u/%u", &k, &part, &parts);
         std::set<std::string> want;
         std::stringstream ss(names);
-        for (std::string n; std::getline(ss, n, ',');) want.insert(n);
+        // names are separated by ';' (a full key "name/Operand,Operand" contains commas); a list without ';' is split at ','
+        const char sep = names.find(';') != std::string::npos ? ';' : ',';
+        for (std::string n; std::getline(ss, n, sep);) want.insert(n);
         std::vector<unsigned> sel;
         for (unsigned w = 0; w < 65536; ++w) {
             vrec::Rec rec;
